@@ -189,7 +189,29 @@ func run(t *vk.T) {
 	if os.Getenv("C08_CORE_ONLY") != "" {
 		nCases, nBatches = 0, 0
 	}
-	nCoreBatches := (len(core) + coreBatchSize - 1) / coreBatchSize
+	// core batches: the structure cases striped over the batches (the shapes of one family, which would
+	// hang together, end up in different children), the hostile-kind cases in consecutive slices
+	var coreBatches [][]*genCase
+	{
+		var st, ho []*genCase
+		for _, c := range core {
+			if c.Kind == "core-struct" {
+				st = append(st, c)
+			} else {
+				ho = append(ho, c)
+			}
+		}
+		nb := (len(st) + coreBatchSize - 1) / coreBatchSize
+		sb := make([][]*genCase, nb)
+		for i, c := range st {
+			sb[i%nb] = append(sb[i%nb], c)
+		}
+		coreBatches = append(coreBatches, sb...)
+		for lo := 0; lo < len(ho); lo += coreBatchSize {
+			coreBatches = append(coreBatches, ho[lo:min(lo+coreBatchSize, len(ho))])
+		}
+	}
+	nCoreBatches := len(coreBatches)
 	workers := runtime.GOMAXPROCS(0) / 2
 	if workers < 1 {
 		workers = 1
@@ -203,7 +225,7 @@ func run(t *vk.T) {
 			for b := range next {
 				if b < 0 { // core batch -b-1
 					cb := -b - 1
-					r.runBatch(fmt.Sprintf("core%04d", cb), core[cb*coreBatchSize:min((cb+1)*coreBatchSize, len(core))], 1, -1)
+					r.runBatch(fmt.Sprintf("core%04d", cb), coreBatches[cb], 1, -1)
 					continue
 				}
 				lo, hi := b*batchSize, min((b+1)*batchSize, nCases)
@@ -392,8 +414,9 @@ func (r *runner) runBatch(name string, cases []*genCase, mult, only int) (violat
 	if os.Getenv("VERIF_KEEP") == "" {
 		defer os.RemoveAll(dir)
 	}
-	mf := manifest{Repo: vk.RepoDir(), FontDir: r.fontDir, Mult: mult}
+	mf := manifest{Repo: vk.RepoDir(), FontDir: r.fontDir, Mult: mult, NoBallast: len(cases) > 0}
 	for _, c := range cases {
+		mf.NoBallast = mf.NoBallast && c.Kind == "core-struct"
 		cc := *c
 		if only >= 0 {
 			cc.Plan = []string{c.Plan[only]}
